@@ -33,8 +33,11 @@ type c03CLICase struct {
 	Target  int    `json:"target_chunk"`
 	ObjHex  string `json:"planted_object_hex"`
 	Exit    int    `json:"exit"`
+	Stderr  string `json:"stderr,omitempty"`
 	Same    bool   `json:"output_identical"`
 }
+
+var c03LastStderr string
 
 func c03Run(timeout time.Duration, stdout *bytes.Buffer, bin string, args ...string) int {
 	c := exec.Command(bin, args...)
@@ -43,6 +46,12 @@ func c03Run(timeout time.Duration, stdout *bytes.Buffer, bin string, args ...str
 	}
 	var stderr bytes.Buffer
 	c.Stderr = &stderr
+	defer func() {
+		c03LastStderr = stderr.String()
+		if len(c03LastStderr) > 300 {
+			c03LastStderr = c03LastStderr[len(c03LastStderr)-300:]
+		}
+	}()
 	if err := c.Start(); err != nil {
 		return -1
 	}
@@ -126,6 +135,7 @@ func c03CLI(e *c03Env, rnd *vh.Rand) error {
 		e.r.Note("VH_DESYNC not set: CLI pipeline cases skipped")
 		return nil
 	}
+	os.Setenv("CASYNC_REMOTE_PATH", bin) // the ssh cases here talk to `desync pull`
 	plants := []string{"flip-first", "flip-last", "flip-mid", "flip-rand", "empty", "trunc-1", "trunc-len-1", "trunc-half",
 		"other-chunk", "other-same-size", "other-zstd", "format-swap", "double-comp", "garbage", "append-byte", "append-frame", "missing", "good"}
 	reps := 1
@@ -334,6 +344,9 @@ func c03CLIOne(e *c03Env, rnd *vh.Rand, bin string, c *c03CLICase, n int) error 
 		os.MkdirAll(out, 0755)
 		c.Exit = c03Run(20*time.Second, nil, bin, append(append(append(base, "untar", "-i", "--no-same-owner"), storeArgs...), idxFile, out)...)
 		c.Same = c03SameTree(c03Tree(out), srcTree)
+	}
+	if c.Exit != 0 {
+		c.Stderr = c03LastStderr
 	}
 	bad := c.Plant != "good"
 	e.r.Count(fmt.Sprintf("cli|%s|%v|%s|%s|%v", c.Cmd, c.Unc, c.Plant, c.Where, c.Skip), bad)
